@@ -5,6 +5,33 @@ from bqsa import props
 allp = [json.loads(l)['id'] for l in open('/verif/properties.jsonl')]
 na = json.load(open('/verif/tables/not_applicable.json'))
 fixes = subprocess.run(['git', '-C', '/repo', 'log', '--format=%H %s', '22c33c4..HEAD'], capture_output=True, text=True).stdout.splitlines()
+METHOD = [   # rule module prefix -> the deciding method, as it goes into the technique field
+    ('sx_', 'path-sensitive abstract interpretation of the anchored functions over uninterpreted terms (bqsa/symex.py), obligations stated over the events and result terms of every path'),
+    ('dtype', 'abstract type interpretation of every registered implementation against its announced signature (bqsa/absint.py)'),
+    ('evalnodes', 'null-flow abstract interpretation and result-term comparison of every operator implementation'),
+    ('state_rules', 'whole-package write census: an effect analysis classifying the lifetime of the receiver of every store and mutator call (bqsa/effects.py)'),
+    ('grammar_rules', 'analyses of the TatSu grammar model: translation validation of the generated parser, precedence matrix, automata equivalence of lexical classes, derivation-path enumeration, clause-language comparison'),
+    ('compiler_rules', 'structural rules over the resolved syntax tree and call graph of the compiler (raise sites, handler exhaustiveness, exception tree) and abstract type interpretation of its guards'),
+    ('eqfaith', 'slot census of the evaluator classes plus term interpretation of EvalNode.__eq__'),
+    ('cursor_rules', 'module-constant and sibling rules over the DB-API layer'),
+    ('table_rules', 'access-path comparison of every table column against the recorded attribute paths'),
+    ('clause_rules', 'field-flow and call-order rules over the statement expansions'),
+    ('library_rules', 'definition comparison of the scalar function library'),
+    ('executor', 'finite-domain interpretation of the executor loops'),
+    ('aggregates', 'finite-domain interpretation of the aggregate classes'),
+]
+
+
+def technique(spec):
+    mods = []
+    for f in spec['quick'] + spec.get('thorough', []):
+        m = f.__module__.rsplit('.', 1)[-1]
+        for pre, text in METHOD:
+            if m.startswith(pre) and text not in mods:
+                mods.append(text)
+    return 'static analysis (nothing is executed, no solver): ' + '; '.join(mods)
+
+
 checks = []
 for pid in allp:
     spec = props.PROPS.get(pid)
@@ -19,7 +46,7 @@ for pid in allp:
         "engine": "bqsa",
         "level_claimed": {"category": spec['level'], "text": spec['explanation'], "design_ref": f"DESIGN.md §3 {pid}"},
         "level_note": "; ".join(spec['assumptions']),
-        "technique": spec.get('technique', 'static analysis: repository-specific rules over the resolved syntax tree, abstract type interpretation over the reconstructed registries, and path-sensitive abstract interpretation over uninterpreted terms (no solver, nothing executed)'),
+        "technique": technique(spec),
     })
 m = {
     "version": 1,
